@@ -263,7 +263,9 @@ loop:
 					if err = xdict.ht.checkMutable("apply |= to"); err != nil {
 						break loop
 					}
-					xdict.ht.addAll(&ydict.ht) // can't fail
+					if err = xdict.ht.addAll(&ydict.ht); err != nil {
+						break loop
+					}
 					z = xdict
 				}
 			}
